@@ -22,8 +22,9 @@ KNOWN_BY_TAG = {
     "do-action-after-provisional-end": ("F-01f", {"event-data", "final-data"}),
     "end-during-wait-in-foreach": ("F-01g", {"event-order"}),
     "case-provisional-match": ("F-01k", {"event-data", "final-data", "event-order"}),
-    "condition-after-consumed-end": ("F-01p", {"rc"}),
-    "lookahead-after-consumed-end": ("F-01p", {"rc"}),
+    "condition-after-consumed-end": ("F-01p", {"rc", "event-order"}),
+    "lookahead-after-consumed-end": ("F-01p", {"rc", "event-order"}),
+    "do-actions-before-pending-actions": ("F-01s", {"event-data", "final-data"}),
 }
 
 
